@@ -73,12 +73,15 @@ def main():
             subprocess.run(['git', '-C', '/repo', 'worktree', 'remove', '--force', os.path.join(tmp, 'go-internal')], capture_output=True)
             shutil.rmtree(tmp, ignore_errors=True)
             subprocess.run(['git', '-C', '/repo', 'worktree', 'prune'])
-        m_, st, info, dt = results[-1]
+            report(results[-1], tier)
+    bad = [r for r in results if r[1] != 'CAUGHT']
+    print('%d mutants, %d caught, %d not' % (len(results), len(results) - len(bad), len(bad)))
+
+def report(res, tier):
+        m_, st, info, dt = res
         line = '%-7s %s:%-34s %-12s %5.1fs  %s' % (time.strftime('%H:%M'), m_['prop'], m_['name'], st, dt, info.replace('\n', ' '))
         print(line, flush=True)
         with open(os.path.join(VERIF, 'mutants', 'RESULTS.txt'), 'a') as f:
             f.write('%s tier=%s %s\n' % (time.strftime('%Y-%m-%d'), m_['tier'] or tier, line))
-    bad = [r for r in results if r[1] != 'CAUGHT']
-    print('%d mutants, %d caught, %d not' % (len(results), len(results) - len(bad), len(bad)))
 
 main()
